@@ -700,6 +700,15 @@ package websocket
 //@ ensures [deregistered] {C15} !gvcMapHas(c.activePings, p) || old(gvcMapHas(c.activePings, p))
 //@ ensures [close-sent-kept] {C16} c.closeSent == old(c.closeSent)
 
+//@ func (*Conn).CloseRead
+//@ tags C20
+//@ opt allow-go=the reader goroutine started here (Reader, then Close on a data message, close, cancel, close(closeReadDone)) is not modelled; C20 only uses that closeReadDone exists whenever closeReadCtx does
+//@ requires c != nil && ctx != nil && (c.closeReadCtx != nil ==> c.closeReadDone != nil)
+//@ modifies c.closeReadCtx, c.closeReadDone
+//@ ensures [idempotent] old(c.closeReadCtx) != nil ==> result == old(c.closeReadCtx) && c.closeReadCtx == old(c.closeReadCtx) && c.closeReadDone == old(c.closeReadDone)
+//@ ensures [registered] {C20} c.closeReadCtx != nil && c.closeReadDone != nil && result == c.closeReadCtx
+//@ ensures [fresh-done] {C20} old(c.closeReadCtx) == nil ==> gvcFresh(c.closeReadDone)
+
 //@ func (*Conn).Ping
 //@ tags C15
 //@ note public entry point of ping
